@@ -15,7 +15,7 @@ import json
 import random
 
 from .. import vlib
-from ..eccrig import SECP, h_G, h_mul
+from ..eccrig import SECP, det_rng, h_G, h_mul
 
 N = SECP["n"]
 FLAGS = [0x01, 0x02, 0x03, 0x81, 0x82, 0x83]
@@ -183,7 +183,12 @@ def run_case(case):
                   version=case["version"], locktime=case["lock"], rpc_url="http://scripted")
         if case["signed"]:
             kw.update(sender_keys=snd.wifs, sighash_flag=case["flag"])
-        got = vlib.run_call(bits.tx.send_tx, snd.addr, case["raddr"], **kw)
+        # nonces: deterministic in the case (a run is a function of its seed).  Every third signed case starts with the draw that
+        # makes k = (n+1)/2, whose r has 166 bits: the DER INTEGER of r is then 21 bytes, not 32 or 33 (BIP66 minimal encoding)
+        half = (SECP["n"] + 1) // 2
+        forced = [(half - 1, half)[case.get("seq", 0) % 2]] if case["signed"] and case.get("seq", 0) % 3 == 0 else []
+        with det_rng(("c16", case.get("seq", 0), case["num"], case["den"], case["fee"], len(utxos)), forced):
+            got = vlib.run_call(bits.tx.send_tx, snd.addr, case["raddr"], **kw)
     finally:
         bits.rpc.rpc_method = orig
     okb = "ok" in got and isinstance(got["ok"], (bytes, bytearray))
@@ -316,6 +321,7 @@ def _stage_b(ctx, rnd):
 def _judge(ctx, cases, tag):
     evs, clss = [], []
     for case in cases:
+        case.setdefault("seq", len(evs))
         ev, cls = run_case(case)
         ev["id"] = len(evs)
         evs.append(ev)
